@@ -15,13 +15,13 @@ def build_nolog():
     return os.path.join(NOLOG, "target", "verif", "mtnolog")
 
 
-def validate_api(trace, wd, max_rounds=10):
+def validate_api(trace, wd, max_rounds=10, tag="trace"):
     core.lint_trace_file(trace)
     cur = trace
     rej = []
     states = 0
     for rnd in range(max_rounds):
-        r = core.tlc("Trace_Api", core.cfg_text(spec="TSpec", postcondition="TraceAccepted"), "trace_%d" % rnd, wd, workers=1, timeout=1800,
+        r = core.tlc("Trace_Api", core.cfg_text(spec="TSpec", postcondition="TraceAccepted"), "%s_%d" % (tag, rnd), wd, workers=1, timeout=1800,
                      coverage=False, dfs=True, env_extra={"TRACE": cur}, xmx="6g")
         states += r.distinct
         m = _REJ.search(r.out)
@@ -53,7 +53,7 @@ def validate_api(trace, wd, max_rounds=10):
             ctx["object"] = kind.get(ev["sid"], "?")
         rej.append({"line": ln, "event": ctx})
         cl = [e for i, e in enumerate(cl) if i not in drop]
-        cur = os.path.join(wd, "trace_cut%d.ndjson" % rnd)
+        cur = os.path.join(wd, "%s_cut%d.ndjson" % (tag, rnd))
         core.write_lines(cur, cl)
     else:
         core.log("stopped after %d rejections; the rest of the API trace was not validated" % max_rounds)
@@ -112,6 +112,21 @@ def run(prop, tier, seed, replay=None):
         raise core.ToolError("the second process / the nolog binary did not run: %s" % s["notes"])
     rej, tstates = validate_api(trace, wd)
     violations = list(s["violations"])
+    # 3. mode R: histories generated by TLC from Api.tla (-simulate), executed on real objects, validated again
+    hpath = os.path.join(wd, "histories.ndjson")
+    open(hpath, "w").close()
+    hc = dict(Sids={1, 2, 3, 4, 5, 6}, Origins={1, 2, 3}, Args={1, 2, 3}, Threads={1, 2, 3, 4}, Blobs={1, 2}, Digests={1}, DEPTH=30)
+    nh = 200 if tier == "quick" else 5000
+    hg = core.tlc("Gen_ApiHistory", core.cfg_text(spec="HSpec", constants=hc, invariants=["Emit"]), "gen_hist", wd, workers=4, timeout=600,
+                  simulate=max(50, nh // 20), depth=32, coverage=False, replay_to=hpath, seed=seed, allow_timeout=True)
+    htrace = os.path.join(wd, "hist_trace.ndjson")
+    hs = core.mt("replay-api-history", hpath, os.path.join(wd, "hist.json"), seed, {"origins": path, "max": nh, "trace": htrace})
+    violations += hs["violations"]
+    if hs["nontrivial"] < 20:
+        raise core.ToolError("vacuity guard: only %d TLC-generated histories executed" % hs["nontrivial"])
+    hrej, hstates = validate_api(htrace, os.path.join(wd), tag="hist")
+    rej = rej + hrej
+    tstates += hstates
     for x in rej:
         p = attribute(x["event"])
         violations.append({"property": p, "what": "API history rejected by Trace_Api at %s" % json.dumps(x["event"])[:400],
@@ -122,7 +137,8 @@ def run(prop, tier, seed, replay=None):
         return 1 if mine else 0
     cov = {
         "states": r.distinct + r2.distinct + tstates, "transitions": r.generated + r2.generated,
-        "traces_validated_against_impl": 1 if not rej else 0,
+        "traces_validated_against_impl": (1 + hs["nontrivial"]) if not rej else 0,
+        "histories_generated_by_tlc_and_executed": hs["nontrivial"],
         "samples": s["samples"][:3],
         "evaluations": s["evaluations"], "distinct_nontrivial": s["nontrivial"],
         "rule": "one history per run: for each of N origins (Gen_Routing graph x routing) build twice, clone, serialise to JSON text and to "
